@@ -18,18 +18,21 @@ func C06(r *core.Report) {
 		"R0 length-prefix agreement - the writer prefixes each record with uvarint(payload length) and reports the whole record size; the reader must take the prefix width from decoding the stored prefix (and check it against the record size), never from a varint-width function applied to the record size; " +
 		"R1 every batch parked by the background writer is flushed before it signals completion (must-pass-through from each park to the done-send), and the parking slice is created empty (a make with non-zero length followed by append/len tests is the pinned-tree defect); " +
 		"R2 Close waits for the background writer before the final synchronous flush of the accumulator, and sets the exit flag before waiting; R3 each batch is reversed (newest first) before it is serialised; R4 the batch handed to the background goroutine is a fresh copy. " +
-		"Not decided: exactly-once for all push histories and timings, zstd round trip, the interplay of the periodic partial flush with parked batches."
+		"R5 the synchronous partial flush in Push is taken only under !popRank.has(key) and every hand-off of a full batch to the background writer ranks its address (popRank.Incr) - the two halves of the mechanism that keeps a short newer batch from overtaking a parked older one. " +
+		"Not decided: exactly-once for all push histories and timings, zstd round trip, whether the rank keeps every address that still has a parked batch (purge arithmetic)."
 	r.Assumptions = []string{"channel FIFO and the Go memory model are trusted", "tidwall/hashmap is not safe for concurrent use"}
 	c06Prefix(r)
 	c06Drain(r)
 	c06CloseOrder(r)
 	c06Reverse(r)
 	c06Handoff(r)
+	c06PartialFlushGuard(r)
 	r.Floor("C06.R0", 5)
 	r.Floor("C06.R1", 3)
 	r.Floor("C06.R2", 2)
 	r.Floor("C06.R3", 1)
 	r.Floor("C06.R4", 1)
+	r.Floor("C06.R5", 2)
 }
 
 func isUvarintWidthFunc(nm string) bool {
@@ -489,4 +492,106 @@ func allocatesCopy(f *core.Func) bool {
 		}
 	}
 	return mk && cp
+}
+
+// c06PartialFlushGuard (C06.R5): Push's synchronous partial flush writes a short batch straight to the linked log,
+// overtaking whatever the background writer still has parked for the same address. The code prevents the overtaking by
+// (a) flushing directly only keys that are not in the rank of addresses that ever filled a batch and (b) ranking an
+// address every time a full batch of it is handed to the background writer. Both halves are structural.
+func c06PartialFlushGuard(r *core.Report) {
+	const rule = "C06.R5"
+	f := r.Anchor(rule, "gsfa.(*GsfaWriter).Push")
+	if f == nil {
+		return
+	}
+	info := f.Pkg.TypesInfo
+	g := r.Prog.Graph(f)
+	keyOfLit := func(e ast.Expr) types.Object {
+		cl, ok := core.Unparen(e).(*ast.CompositeLit)
+		if !ok {
+			return nil
+		}
+		for _, el := range cl.Elts {
+			if kv, ok := el.(*ast.KeyValueExpr); ok && core.ExprStr(kv.Key) == "Key" {
+				return core.ObjOf(info, kv.Value)
+			}
+		}
+		return nil
+	}
+	nDirect, nSend := 0, 0
+	for _, n := range stmtNodes(g) {
+		// (a) direct flushes
+		ast.Inspect(n.Ast, func(m ast.Node) bool {
+			if _, isLit := m.(*ast.FuncLit); isLit {
+				return false
+			}
+			c, ok := m.(*ast.CallExpr)
+			if !ok || core.CalleeName(info, c) != "gsfa.(*GsfaWriter).flushKVs" {
+				return true
+			}
+			nDirect++
+			k := fmt.Sprintf("%s#direct-flush@%d-guarded-by-rank", f.Key, nDirect)
+			var key types.Object
+			if len(c.Args) > 0 {
+				key = keyOfLit(c.Args[0])
+			}
+			if key == nil {
+				r.Undecided(rule, k, pos(r, c), "key of the directly flushed batch not identified")
+				return true
+			}
+			ok = false
+			for _, fc := range g.FactsAt(n) {
+				if fc.Tag != nil || fc.Truth {
+					continue
+				}
+				hc, isCall := core.Unparen(fc.Expr).(*ast.CallExpr)
+				if isCall && core.CalleeName(info, hc) == "gsfa.(*rollingRankOfTopPerformers).has" && len(hc.Args) == 1 && core.ObjOf(info, hc.Args[0]) == key && g.FactFresh(fc, n) {
+					ok = true
+				}
+			}
+			r.Check(ok, rule, k, pos(r, c), "the synchronous partial flush is taken only for addresses that are not ranked (never filled a batch)",
+				"the synchronous partial flush is not guarded by !popRank.has(key): a short newer batch can be linked before an older full batch still parked in the background writer, breaking newest-first order")
+			return true
+		})
+		// (b) hand-offs
+		s, ok := n.Ast.(*ast.SendStmt)
+		if !ok || !strings.Contains(core.ExprStr(s.Chan), "fullBufferWriterChan") {
+			continue
+		}
+		nSend++
+		k := fmt.Sprintf("%s#send@%d-ranked-before-handoff", f.Key, nSend)
+		key := keyOfLit(s.Value)
+		if key == nil {
+			r.Undecided(rule, k, pos(r, s), "key of the handed-off batch not identified")
+			continue
+		}
+		incr := map[*core.GNode]bool{}
+		for _, m := range stmtNodes(g) {
+			es, ok := m.Ast.(*ast.ExprStmt)
+			if !ok {
+				continue
+			}
+			if c, ok := es.X.(*ast.CallExpr); ok && core.CalleeName(info, c) == "gsfa.(*rollingRankOfTopPerformers).Incr" && len(c.Args) >= 1 && core.ObjOf(info, c.Args[0]) == key {
+				incr[m] = true
+			}
+		}
+		dom := false
+		for m := range incr {
+			if g.Dominates(m, n) {
+				dom = true
+			}
+		}
+		if !dom {
+			// or post-dominated within the same iteration: every path from the send to the loop head / exit passes Incr
+			dom = len(incr) > 0 && g.PathAvoiding(n, func(x *core.GNode) bool { return x.Kind == core.KExit || x == n }, func(x *core.GNode) bool { return incr[x] }) == nil && !g.Reach(n, func(x *core.GNode) bool { return incr[x] })[n]
+		}
+		r.Check(dom, rule, k, pos(r, s), "an address is ranked whenever a full batch of it is handed to the background writer",
+			"a full batch is handed to the background writer without ranking its address (popRank.Incr): a later partial flush of that address can overtake the parked batch")
+	}
+	if nDirect == 0 {
+		r.Note("C06.R5: Push performs no synchronous flush")
+	}
+	if nSend == 0 {
+		r.Undecided(rule, f.Key+"#send", posP(r, f.Pos()), "send on fullBufferWriterChan not found")
+	}
 }
